@@ -446,7 +446,7 @@ func init() {
 				us = append(us, c03Connect(d), c03Update(d))
 				depth := 4
 				if tier == "thorough" {
-					depth = 6
+					depth = 8
 				}
 				if d == vh.Badger {
 					depth--
@@ -456,9 +456,7 @@ func init() {
 				if d == vh.Badger {
 					bound = 1
 				}
-				if tier == "thorough" {
-					bound += 2
-				}
+				// (bound 3 does not finish within the thorough budget: 2/1 is what is completed)
 				us = append(us, c03SharedRace(d, bound))
 			}
 			return us
